@@ -143,6 +143,56 @@ int main(int argc, char **argv)
             ++n_events;
         }
     }
+    /* bulk shift helpers: block of length bn (inside a longer array with sentinels), cache / shift count of every length */
+    for (int bn = 1; bn <= 5; ++bn)
+    {
+        for (int cn = 0; cn <= bn + 2; ++cn)
+        {
+            int bi[8], ci[8];
+            a_real b[8], c[8], t[8], sh[8];
+            for (int i = 0; i < 8; ++i) { bi[i] = 10 + i; ci[i] = -(i + 1); b[i] = (a_real)bi[i]; c[i] = (a_real)ci[i]; }
+            fprintf(f, "{\"f\":\"bulk\",\"bn\":%d,\"cn\":%d,\"b\":", bn, cn);
+            put_ints(bi, 8);
+            fputs(",\"c\":", f);
+            put_ints(ci, 8);
+            memcpy(t, b, sizeof(t)); a_real_push_fore_(t, (a_size)bn, c, (a_size)cn); put_arr("push_fore", t, 8);
+            memcpy(t, b, sizeof(t)); a_real_push_back_(t, (a_size)bn, c, (a_size)cn); put_arr("push_back", t, 8);
+            /* rotation by cn, 2*bn + cn: the scratch array needs (count mod bn) slots */
+            memcpy(t, b, sizeof(t)); memset(sh, 0, sizeof(sh)); a_real_roll_fore_(t, (a_size)bn, sh, (a_size)cn); put_arr("roll_fore", t, 8);
+            memcpy(t, b, sizeof(t)); memset(sh, 0, sizeof(sh)); a_real_roll_back_(t, (a_size)bn, sh, (a_size)cn); put_arr("roll_back", t, 8);
+            memcpy(t, b, sizeof(t)); memset(sh, 0, sizeof(sh)); a_real_roll_fore_(t, (a_size)bn, sh, (a_size)(2 * bn + cn)); put_arr("roll_fore2", t, 8);
+            memcpy(t, b, sizeof(t)); memset(sh, 0, sizeof(sh)); a_real_roll_back_(t, (a_size)bn, sh, (a_size)(2 * bn + cn)); put_arr("roll_back2", t, 8);
+            fputs("}\n", f);
+            ++n_events;
+        }
+    }
+    /* strided swap: n elements at strides lc, rc of two arrays of 12 */
+    for (int n = 0; n <= 4; ++n)
+    {
+        for (int lc = 1; lc <= 3; ++lc) for (int rc = 1; rc <= 2; ++rc)
+        {
+            int ai[12], bi[12];
+            a_real a[12], b[12];
+            for (int i = 0; i < 12; ++i) { ai[i] = 3 * i + 1; bi[i] = -5 * i - 2; a[i] = (a_real)ai[i]; b[i] = (a_real)bi[i]; }
+            fprintf(f, "{\"f\":\"swaps\",\"n\":%d,\"lc\":%d,\"rc\":%d,\"a\":", n, lc, rc);
+            put_ints(ai, 12);
+            fputs(",\"b\":", f);
+            put_ints(bi, 12);
+            a_real_swap_((a_size)n, a, (a_size)lc, b, (a_size)rc);
+            put_arr("ra", a, 12); put_arr("rb", b, 12);
+            fputs("}\n", f);
+            ++n_events;
+        }
+    }
+    /* degree / radian conversion: quarter turns are exact multiples */
+    for (int q = -8; q <= 8; ++q)
+    {
+        fprintf(f, "{\"f\":\"angle\",\"q\":%d,\"deg\":", q);
+        put_value(f, (double)a_real_rad2deg((a_real)(q * 0.78539816339744830962)));
+        fputs(",\"rad4\":", f); put_value(f, (double)a_real_deg2rad((a_real)(45 * q)) / 0.78539816339744830962);
+        fputs("}\n", f);
+        ++n_events;
+    }
     fclose(f);
     printf("SUMMARY {\"events\":%ld}\n", n_events);
     return 0;
